@@ -24,20 +24,20 @@ import DsdVerif.Props.C12Kernel
 namespace Dsd.PyMembers
 open Dsd Gen PyMembersL
 
-theorem py_name_eq (s : DomainS.Self) : py_DomainS_name.exec s = (.ok s._name, s) := exec_name s
-theorem py_length_eq (s : DomainS.Self) : py_DomainS_length.exec s = (.ok s._length, s) := exec_length s
-theorem py_len_eq (s : DomainS.Self) : py_DomainS_len.exec s = (.ok s._length, s) := exec_len s
+theorem py_name_eq (s : DomainSM.Self) : py_DomainSM_name.exec s = (.ok s._name, s) := exec_name s
+theorem py_length_eq (s : DomainSM.Self) : py_DomainSM_length.exec s = (.ok s._length, s) := exec_length s
+theorem py_len_eq (s : DomainSM.Self) : py_DomainSM_len.exec s = (.ok s._length, s) := exec_len s
 
 /-- `bool(d)` (through `__len__`: the class defines no `__bool__`) is `length ≠ 0` -/
-theorem py_domain_truth_value (s : DomainS.Self) : py_DomainS_truth.exec s = (.ok (decide (s._length ≠ 0)), s) := exec_truth s
+theorem py_domain_truth_value (s : DomainSM.Self) : py_DomainSM_truth.exec s = (.ok (decide (s._length ≠ 0)), s) := exec_truth s
 
 /-- a zero-length domain is a falsy object, whatever its name -/
-theorem py_zero_length_domain_falsy (n : String) : py_DomainS_truth.exec { _name := n, _length := 0 } = (.ok false, { _name := n, _length := 0 }) :=
+theorem py_zero_length_domain_falsy (n : String) : py_DomainSM_truth.exec { _name := n, _length := 0 } = (.ok false, { _name := n, _length := 0 }) :=
   rfl
 
 /-- `dtype` as written is the expression-level reduction of Gen/PyExprs.lean -/
-theorem py_dtype_eq_expr (cutoff : Nat) (s : DomainS.Self) :
-    (py_DomainS_dtype cutoff).exec s = (.ok (py_dtype (s._length : Int) (cutoff : Int)), s) := by
+theorem py_dtype_eq_expr (cutoff : Nat) (s : DomainSM.Self) :
+    (py_DomainSM_dtype cutoff).exec s = (.ok (py_dtype (s._length : Int) (cutoff : Int)), s) := by
   rw [exec_dtype]; unfold py_dtype
   by_cases h : s._length ≤ cutoff
   · have : (s._length : Int) ≤ (cutoff : Int) := by exact_mod_cast h
@@ -51,20 +51,20 @@ def showDType : DType → String
   | .long => "long"
 
 /-- `dtype` as written = `DomCfg.dtypeOf` with the class's `DTYPE_CUTOFF` -/
-theorem py_dtype_eq_model (cfg : DomCfg) (s : DomainS.Self) :
-    (py_DomainS_dtype cfg.cutoff).exec s = (.ok (showDType (cfg.dtypeOf s._length)), s) := by
+theorem py_dtype_eq_model (cfg : DomCfg) (s : DomainSM.Self) :
+    (py_DomainSM_dtype cfg.cutoff).exec s = (.ok (showDType (cfg.dtypeOf s._length)), s) := by
   rw [exec_dtype]; unfold DomCfg.dtypeOf
   by_cases h : s._length ≤ cfg.cutoff <;> simp [h, showDType]
 
 /-- `C04.dtype_rule` for the code: "short" exactly when the length is at most the cut-off of the class (any subclass value) -/
-theorem py_dtype_rule (cfg : DomCfg) (s : DomainS.Self) :
-    ((py_DomainS_dtype cfg.cutoff).exec s).1 = .ok "short" ↔ s._length ≤ cfg.cutoff := by
+theorem py_dtype_rule (cfg : DomCfg) (s : DomainSM.Self) :
+    ((py_DomainSM_dtype cfg.cutoff).exec s).1 = .ok "short" ↔ s._length ≤ cfg.cutoff := by
   rw [py_dtype_eq_model, ← C04.dtype_rule cfg s._length]
   cases cfg.dtypeOf s._length <;> simp [showDType]
 
 /-- `is_complement` is true exactly when the name ends in a star -/
-theorem py_is_complement_iff (s : DomainS.Self) (hne : s._name ≠ "") :
-    py_DomainS_is_complement.exec s = (.ok (isStarred s._name), s) := by
+theorem py_is_complement_iff (s : DomainSM.Self) (hne : s._name ≠ "") :
+    py_DomainSM_is_complement.exec s = (.ok (isStarred s._name), s) := by
   rw [exec_is_complement]
   cases h : s._name.toList.getLast? with
   | none =>
@@ -75,9 +75,9 @@ theorem py_is_complement_iff (s : DomainS.Self) (hne : s._name ≠ "") :
 
 /-- the empty name: `name[-1]` raises IndexError in `is_complement`, `cname`, `complement`, `~d` -/
 theorem py_empty_name_raises (l : Nat) (request : String → Nat → Py.M Nat) :
-    py_DomainS_is_complement.exec { _name := "", _length := l } = (.error (.fault "IndexError"), { _name := "", _length := l }) ∧
-    py_DomainS_cname.exec { _name := "", _length := l } = (.error (.fault "IndexError"), { _name := "", _length := l }) ∧
-    (py_DomainS_invert request).exec { _name := "", _length := l } = (.error (.fault "IndexError"), { _name := "", _length := l }) := by
+    py_DomainSM_is_complement.exec { _name := "", _length := l } = (.error (.fault "IndexError"), { _name := "", _length := l }) ∧
+    py_DomainSM_cname.exec { _name := "", _length := l } = (.error (.fault "IndexError"), { _name := "", _length := l }) ∧
+    (py_DomainSM_invert request).exec { _name := "", _length := l } = (.error (.fault "IndexError"), { _name := "", _length := l }) := by
   refine ⟨?_, ?_, ?_⟩
   · rw [exec_is_complement]; rfl
   · rw [exec_cname]; rfl
@@ -92,15 +92,15 @@ theorem getLast_some_of_ne (n : String) (hne : n ≠ "") : ∃ c, n.toList.getLa
   | some c => exact ⟨c, rfl⟩
 
 /-- `cname` as written = the model's `cnameOf` (= `compName`) -/
-theorem py_cname_eq (s : DomainS.Self) (hne : s._name ≠ "") : py_DomainS_cname.exec s = (.ok (compName s._name), s) := by
+theorem py_cname_eq (s : DomainSM.Self) (hne : s._name ≠ "") : py_DomainSM_cname.exec s = (.ok (compName s._name), s) := by
   obtain ⟨c, hc⟩ := getLast_some_of_ne _ hne
   rw [exec_cname, hc]; rfl
 
 /-- `C12.compName_involutive` for the code: the `cname` of the domain that carries the `cname` is the name again -/
-theorem py_cname_involutive (s : DomainS.Self)
+theorem py_cname_involutive (s : DomainSM.Self)
     (h : s._name ≠ "" ∧ s._name ≠ "*" ∧ (isStarred s._name = true → isStarred (cnameOf s._name) = false)) :
-    ∃ n', py_DomainS_cname.exec s = (.ok n', s) ∧
-      py_DomainS_cname.exec { s with _name := n' } = (.ok s._name, { s with _name := n' }) := by
+    ∃ n', py_DomainSM_cname.exec s = (.ok n', s) ∧
+      py_DomainSM_cname.exec { s with _name := n' } = (.ok s._name, { s with _name := n' }) := by
   refine ⟨compName s._name, py_cname_eq s h.1, ?_⟩
   have hne' : compName s._name ≠ "" := by
     intro he
@@ -112,8 +112,8 @@ theorem py_cname_involutive (s : DomainS.Self)
 
 /-- the excluded name "*": its `cname` is the empty name, whose `cname` raises - kept as the counterexample -/
 theorem py_cname_star_not_involutive (l : Nat) :
-    py_DomainS_cname.exec { _name := "*", _length := l } = (.ok "", { _name := "*", _length := l }) ∧
-    py_DomainS_cname.exec { _name := "", _length := l } = (.error (.fault "IndexError"), { _name := "", _length := l }) := by
+    py_DomainSM_cname.exec { _name := "*", _length := l } = (.ok "", { _name := "*", _length := l }) ∧
+    py_DomainSM_cname.exec { _name := "", _length := l } = (.error (.fault "IndexError"), { _name := "", _length := l }) := by
   constructor
   · rw [exec_cname]
     have h1 : ("*" : String).toList.getLast? = some '*' := by decide
@@ -122,14 +122,14 @@ theorem py_cname_star_not_involutive (l : Nat) :
   · rw [exec_cname]; rfl
 
 /-- `d.complement` requests exactly `(cname, length)`: the complement is asked for with the SAME length -/
-theorem py_complement_requests (request : String → Nat → Py.M Nat) (s : DomainS.Self) (hne : s._name ≠ "") :
-    (py_DomainS_complement request).exec s = (request (compName s._name) s._length, s) := by
+theorem py_complement_requests (request : String → Nat → Py.M Nat) (s : DomainSM.Self) (hne : s._name ≠ "") :
+    (py_DomainSM_complement request).exec s = (request (compName s._name) s._length, s) := by
   obtain ⟨c, hc⟩ := getLast_some_of_ne _ hne
   rw [exec_complement, hc]; rfl
 
 /-- `~d` is `d.complement` -/
-theorem py_invert_requests (request : String → Nat → Py.M Nat) (s : DomainS.Self) (hne : s._name ≠ "") :
-    (py_DomainS_invert request).exec s = (request (compName s._name) s._length, s) := by
+theorem py_invert_requests (request : String → Nat → Py.M Nat) (s : DomainSM.Self) (hne : s._name ≠ "") :
+    (py_DomainSM_invert request).exec s = (request (compName s._name) s._length, s) := by
   rw [exec_invert, py_complement_requests request s hne]
 
 end Dsd.PyMembers
